@@ -54,3 +54,19 @@ Definition v_log (m : string) (args : list val) (obj : val) : val :=
   | VC c l => if (c =? "effects")%string then VC "effects" (l ++ [VC m args]) else VStuck
   | _ => VStuck
   end.
+
+(* slices of a byte vector, comparisons on integers, emptiness *)
+Definition v_take (n v : val) : val :=
+  match n, v with VN k, VBytes l => VBytes (firstn (N.to_nat k) l) | _, _ => VStuck end.
+Definition v_drop (n v : val) : val :=
+  match n, v with VN k, VBytes l => VBytes (skipn (N.to_nat k) l) | _, _ => VStuck end.
+Definition v_ltb (a b : val) : bool :=
+  match a, b with VN x, VN y => (x <? y)%N | _, _ => false end.
+Definition v_is_empty (v : val) : bool :=
+  match v with VBytes [] => true | _ => false end.
+
+(* integer addition (only through `+=` on a counter), truth of a bool value *)
+Definition v_add (a b : val) : val :=
+  match a, b with VN x, VN y => VN (x + y) | _, _ => VStuck end.
+Definition v_is_true (v : val) : bool :=
+  match v with VC c [] => (c =? "true")%string | _ => false end.
